@@ -139,7 +139,8 @@ PROPS['C02'] = dict(
          'Oracle: ASan+LSan and a reduced UBSan set with heap fill bytes 0x0c/0x06/0x07/0xbe (an unconstructed node then looks '
          'like an owned string/object/array), tracking-allocator ledger (no foreign/double free, nothing live after '
          'destruction), production build under mallopt(M_PERTURB) with outcome (code, offset, Dump) required to be '
-         'independent of the perturbation, same outcome when parsed twice, document reusable and correct after a failure. '
+         'independent of the perturbation, and - for the pool in a caller-supplied buffer, in every build - independent of seven '
+         'different pre-fills of that buffer (closers, commas, quotes, blanks ...), same outcome when parsed twice, document reusable and correct after a failure. '
          'Non-trivial: invalid with a container open or >1 byte consumed, or valid with depth >= 2.',
     min_evaluations=dict(quick=20000, thorough=500000),
     required_classes=['alloc:pool', 'alloc:freeing', 'alloc:tracking', 'alloc:adaptive-pool', 'alloc:pool-in-user-buffer', 'user-buffer:misaligned', 'wide:>=2047-children', 'text>64KiB', 'invalid@depth4+', 'valid',
@@ -200,13 +201,14 @@ PROPS['C04'] = dict(
          'the last place, and the exact midpoint padded with zeros to 20..830 significant digits with a last non-zero digit (or '
          'the digit string just below it; totals 790..812 dense); mantissas of 20..2000 digits followed by exponent/fraction/nothing; zeros in every spelling; '
          'overflow/underflow boundaries - each spelled scientific / integer-mantissa / positional with e|E and +, at the root, '
-         'in an array, as an object value, at pad 0..40. Oracle: integer rule of the statement, else glibc strtod bits on the '
+         'in an array, as an object value, at pad 0..40; a quarter of the cases enter through ParseSchema (into an existing member / an '
+         'existing scalar root) or ParseOnDemand instead of Parse. Oracle: integer rule of the statement, else glibc strtod bits on the '
          'identical spelling, strtod==inf => kParseErrorInfinity. Non-trivial: more than 15 significant digits or not a plain '
          'integer. distinct = distinct pick sequences.',
     min_evaluations=dict(quick=500000, thorough=10000000),
     required_classes=['class:integer-boundary', 'class:mantissa-x-exp10', 'class:halfway', 'class:long-mantissa', 'class:zero',
                       'class:range-boundary', 'halfway:exact', 'halfway:truncated+1ulp:subnormal',
-                      'halfway:padded-tail+:digits799-801', 'halfway:padded-tail-:digits799-801'],
+                      'halfway:padded-tail+:digits799-801', 'halfway:padded-tail-:digits799-801', 'entry:ParseSchema', 'entry:ParseOnDemand'],
     assumptions=['an error confined to the low 64-bit word of a power-of-ten table row affects ~2^-64 of inputs and is outside '
                  'practical reach of search (DESIGN.md section 8)'],
 )
@@ -228,13 +230,14 @@ PROPS['C07'] = dict(
          'fraction or exponent; length <= 32 and no write outside a 33-byte block (ASan heap block / canary); no decimal with '
          'one digit fewer reads back (nearest candidate and both neighbours, via glibc %.*e); out is the closest candidate of '
          'its length that reads back (exact expansion consulted for ties and irregular intervals); Document::Parse(out) gives '
-         'the same bits; one unit calls the printing routine with MXCSR.DAZ|FTZ set (its output must not depend on the caller\'s '
+         'the same bits; 1 case in 150 prints four doubles on four threads at once (3000 repetitions each, output must be what the '
+         'thread gets alone); one unit calls the printing routine with MXCSR.DAZ|FTZ set (its output must not depend on the caller\'s '
          'floating-point environment); for a sample (a quarter of the 24/25-byte spellings, 1/64 of the rest) the double is serialised at the end of '
          'a document with every amount of space 18..48 bytes left in a 96-byte write buffer (ASan: first byte beyond the block). '
          'Non-trivial: not an integer below 2^53.',
     min_evaluations=dict(quick=500000, thorough=10000000),
     required_classes=['class:exp-rotation:boundary-sig', 'class:subnormal', 'class:integer-valued', 'class:float-value',
-                      'class:format-switch', 'spelling>=24-bytes', 'write-buffer-edge-sweep'],
+                      'class:format-switch', 'spelling>=24-bytes', 'write-buffer-edge-sweep', 'four-threads'],
     assumptions=['an error confined to the low word of one 128-bit table entry is outside practical reach (DESIGN.md section 8)'],
 )
 
@@ -292,10 +295,11 @@ PROPS['C09'] = dict(
          'strings borrow bytes that lie directly in front of memory other threads write. Oracle: scalar matcher from the statement (verbatim bytes, escapes decode to the byte, quotes '
          'around), emitted length <= 6*len+2, no fault (in the runtime-dispatch builds the SSE clone and the AVX2 clone are also '
          'called directly, since the resolver would only ever pick one of them on this host), output unchanged when the bytes after the string are replaced by '
-         'quotes/backslashes/control bytes, Serialize of a string node gives the same bytes. Non-trivial: >= 1 escaped byte, '
+         'quotes/backslashes/control bytes, Serialize of a string node gives the same bytes, and so does (1 case in 4) Serialize of the '
+         'string behind 0..40 numbers into a write buffer of capacity 0..1024 (reservation made on a partly filled buffer). Non-trivial: >= 1 escaped byte, '
          'or len%32 != 0 with the source within 64 bytes of a page end.',
     min_evaluations=dict(quick=500000, thorough=10000000),
-    required_classes=['place:page-end', 'place:heap-exact', 'place:in-page', 'place:page-start', 'class:all-escapes', 'class:single-byte'],
+    required_classes=['place:page-end', 'place:heap-exact', 'place:in-page', 'place:page-start', 'class:all-escapes', 'class:single-byte', 'behind-numbers-in-a-partly-filled-write-buffer'],
 )
 
 c14 = B('c14_memcmp', 'c14_memcmp.cpp', 'asan')
@@ -371,16 +375,17 @@ PROPS['C11'] = dict(
     ],
     harness_alias={'fz_ondemand_raw': 'c11_ondemand_raw'},
     rule='cases: (byte string, path, buffer placement). Byte strings: valid texts, truncations (and every prefix of small texts), '
-         'single-fault mutants, lengths 0,1,2,15-17,31-33,63-67,127-130, nesting stress, libFuzzer bytes (path decoded from the '
+         'single-fault mutants, lengths 0,1,2,15-17,31-33,63-67,127-130, nesting stress, texts that end inside a selected scalar of '
+         '17..200 characters (number, real, string), libFuzzer bytes (path decoded from the '
          'first bytes). Paths: existing / wrong continuations of the original value, and random key/index sequences incl. '
          'negative indices and keys spelled with escapes. Placement: heap block of exactly len bytes (ASan redzones, also '
          'len==0), text ending on the last byte before a PROT_NONE page, text starting right after a PROT_NONE page (production '
-         'build, hostile bytes after the text). Oracle: no sanitizer report / fault; success => slice within [data,data+len) and '
+         'build; the bytes after the text are hostile: quotes, closers and commas, a valid-looking continuation, backslashes, digits). Oracle: no sanitizer report / fault; success => slice within [data,data+len) and '
          'offset <= len; error => empty slice, code in range; ParseOnDemand returns coherently. Nothing is asserted about which '
          'outcome a malformed text gets. Non-trivial: len >= 1 and a non-empty path.',
     min_evaluations=dict(quick=200000, thorough=3000000),
     required_classes=['input:truncated', 'input:valid', 'place:heap-exact', 'place:page-end', 'place:page-start', 'all-prefixes',
-                      'input:block-length'],
+                      'input:block-length', 'input:ends-in-long-scalar'],
 )
 
 c06 = B('c06_serialize', 'c06_serialize.cpp', 'asan')
@@ -424,7 +429,7 @@ PROPS['C12'] = dict(
     rule='cases: operation sequences (1..210 steps, generated and shrunk as one value) over 3 documents, pool or freeing '
          'allocator: Set null/bool/int64/uint64/double/string(copied|constant)/array/object on any node, AddMember (copyKey '
          'on/off, keys from a pool that includes near-collision families - equal length 13..97, one differing byte inside / between '
-         'the comparison kernels\' vector blocks -, duplicate keys only while no map may exist, bursts across the 16->24->36 capacity steps), RemoveMember '
+         'the comparison kernels\' vector blocks - and a family of borrowed keys that are slices of one buffer, duplicate keys only while no map may exist, bursts across the 16->24->36 capacity steps), RemoveMember '
          '(first/last/random/absent), EraseMember (empty/single/prefix/suffix/full), MemberReserve, CreateMap, DestroyMap, '
          'PushBack (bursts), PopBack, Erase (iterator / iterator range / index range), Reserve, Clear, child assignment, '
          'CopyFrom (same/other document, copyString on/off, disjoint source), move-assign (from a disjoint node, from an own '
@@ -436,7 +441,7 @@ PROPS['C12'] = dict(
     min_evaluations=dict(quick=8000, thorough=200000),
     required_classes=['event:remove-tail-with-map', 'event:erase-full-range', 'event:growth-from-0', 'event:move-from-own-descendant',
                       'event:member-growth-across-capacity', 'event:array-growth-across-capacity', 'event:erase-members-with-map',
-                      'event:copy-same-doc', 'alloc:pool', 'alloc:freeing', 'maps:off(transparency run)'],
+                      'event:copy-same-doc', 'alloc:pool', 'alloc:freeing', 'maps:off(transparency run)', 'event:borrowed-key-slice-of-shared-buffer'],
     technique='stateful model-based property testing (rapidcheck-shrunk operation sequences + seeded PRNG) against an executable container model',
 )
 
@@ -476,7 +481,8 @@ PROPS['C19'] = dict(
          'whose keys collide with the existing keys; E built by Parse or through the mutation API; pool, freeing and tracking '
          'allocators; texts with random layouts. Oracle: merge_schema() transcribed from the statement (E non-empty object met '
          'by {}: unchanged or {} both accepted), compared through the accessor walk in order; no parse error; the document '
-         'serialises to its own value, deep-copies equal and destroys cleanly (ASan, ledger: no foreign/double free, nothing '
+         'serialises to its own value, deep-copies equal, accepts one more child in every container (reads back as value + those '
+         'children) and destroys cleanly (ASan, ledger: no foreign/double free, nothing '
          'live afterwards). evaluations counts every application. Non-trivial: both sides non-empty objects, or an array '
          'arriving at an object.',
     min_evaluations=dict(quick=50000, thorough=1500000),
@@ -505,11 +511,12 @@ PROPS['C20'] = dict(
          'containers of its own kind (counts around 255/256/512 dense); the two sides rendered independently with random layouts '
          'and random escaped/unescaped key spellings; plus libFuzzer (target NUL source). Oracle: merge_lazy() transcribed from '
          'the statement on decoded keys; refjson accepts the result and parses it to the model (as key->value maps and in '
-         'target-order-then-appended order); no duplicate keys appear. Non-trivial: a common key at the root or an escape in '
+         'target-order-then-appended order); no duplicate keys appear; 1 case in 120 repeats four merges on four threads at once '
+         '(results must equal the single-threaded ones). Non-trivial: a common key at the root or an escape in '
          'either text.',
     min_evaluations=dict(quick=100000, thorough=2000000),
     required_classes=['common-key', 'root:obj<-obj', 'root:empty-obj<-obj', 'root:obj<-empty-obj', 'root:obj<-scalar', 'root:scalar<-obj',
-                      'escape-on-one-side-only', 'large-target-object', 'value-with-hundreds-of-containers'],
+                      'escape-on-one-side-only', 'large-target-object', 'value-with-hundreds-of-containers', 'four-threads'],
     technique='model-based differential property testing (rapidcheck + seeded PRNG + libFuzzer) against a merge model transcribed from the statement',
 )
 
@@ -544,11 +551,14 @@ PROPS['C16'] = dict(
     units=[
         U(c16, 'rc', 1500, 60000, wq=4, wt=6, label='c16-rc', asan_options='detect_leaks=0'),
         U(c16, 'prng', 12000, 800000, wq=8, wt=10, label='c16-prng', asan_options='detect_leaks=0'),
+        U(B('c16_pool_locked', 'c16_pool.cpp', 'asan', defines=['-DSONIC_LOCKED_ALLOCATOR'], harness='c16_pool'), 'prng', 6000, 400000, wq=2, wt=3,
+          label='c16-locked-build', asan_options='detect_leaks=0', args=['--case-timeout', '30'], replay_timeout=120),
         F(B('fz_c16_ops', 'c16_pool.cpp', 'fuzz'), 15, 600, wq=2, wt=3, label='fz_c16_ops', max_len=2048, asan_options='detect_leaks=0'),
     ],
     rule='cases: operation sequences (1..320 steps, generated and shrunk as one value) over up to 3 allocator handles: create pool '
          '(chunk capacity 64/256/1024/65536, simple or adaptive chunk policy, own or caller-supplied base allocator, optional '
-         'user buffer: 64..4096 bytes, aligned or misaligned), Malloc, Realloc (null pointer, last / not last / older block, '
+         'user buffer: 64..4096 bytes, aligned or misaligned; one unit built with -DSONIC_LOCKED_ALLOCATOR and a 30 s per-case '
+         'watchdog - a single-threaded pool operation that takes its own lock twice never returns), Malloc, Realloc (null pointer, last / not last / older block, '
          'shrink, same, grow, to 0), Clear, copy-construct, copy-assign (also self and onto a moved-from handle), '
          'move-construct, move-assign, destroy; sizes from {0, 1..48, 1/7/8/9/15/16/17, cap-8/cap-1/cap/cap+1/2cap/cap/2, '
          'remaining-8/remaining-1/remaining/remaining+1 of the current chunk, random up to 200 KiB}; one Malloc in 12 and one '
@@ -578,7 +588,9 @@ PROPS['C17'] = dict(
     units=[
         U(c17, 'prng', 500, 20000, wq=4, wt=6, label='c17-tsan', replay_reps=20, replay_timeout=120, cap_s=dict(quick=45, thorough=900)),
         U(c17, 'rc', 200, 5000, wq=2, wt=2, label='c17-tsan-rc', replay_reps=20, replay_timeout=120, cap_s=dict(quick=45, thorough=900)),
-        U(c17l, 'prng', 300, 10000, wq=4, wt=6, label='c17-tsan-locked', replay_reps=20, replay_timeout=120, cap_s=dict(quick=45, thorough=900)),
+        U(c17l, 'prng', 300, 10000, wq=4, wt=6, label='c17-tsan-locked', replay_reps=20, replay_timeout=200, cap_s=dict(quick=45, thorough=900), args=['--case-timeout', '60']),
+        U(B('c17_threads_locked_adaptive', 'c17_threads.cpp', 'tsan', defines=['-DSONIC_LOCKED_ALLOCATOR', '-DSONIC_ADAPTIVE_MEMORYPOOL'], harness='c17_threads_locked'), 'prng', 300, 10000, wq=3, wt=4,
+          label='c17-tsan-locked-adaptive', replay_reps=20, replay_timeout=200, cap_s=dict(quick=45, thorough=900), args=['--case-timeout', '60']),
         U(B('c17_threads', 'c17_threads.cpp', 'wtsan'), 'prng', 300, 12000, wq=3, wt=4, label='c17-tsan-sse', replay_reps=20, replay_timeout=120, cap_s=dict(quick=45, thorough=900)),
         U(B('c17_threads', 'c17_threads.cpp', 'gtsan'), 'prng', 300, 12000, wq=3, wt=4, label='c17-tsan-gcc', replay_reps=20, replay_timeout=120, cap_s=dict(quick=45, thorough=900)),
     ],
@@ -589,7 +601,7 @@ PROPS['C17'] = dict(
          'start (with or without lookup maps, pool or freeing allocator) and then only const operations from all threads: type '
          'tests, getters, iteration, FindMember (view and pointer+length), HasMember, operator[] with existing and MISSING keys, '
          'AtPointer, Dump, Serialize into a thread-local buffer, == against a thread-local copy. (C, second binary built with '
-         '-DSONIC_LOCKED_ALLOCATOR) all threads Malloc/Realloc from one shared pool and parse on documents bound to it. (D) half of the '
+         '-DSONIC_LOCKED_ALLOCATOR, third with -DSONIC_ADAPTIVE_MEMORYPOOL in addition) all threads Malloc/Realloc from one shared pool and parse on documents bound to it. (D) half of the '
          'threads serialise documents of their own whose strings and keys borrow name bytes of a shared record array while the other '
          'half write the counters that lie directly behind those names. Oracle: '
          'ThreadSanitizer silent (halt_on_error); every thread result equals the single-threaded result of the same script; in '
@@ -626,7 +638,8 @@ PROPS['C15'] = dict(
          '-march=westmere -DSONIC_DYNAMIC_DISPATCH} x {g++ -O2 production, g++ -O1 -fsanitize=address}. Oracle: the six digests '
          'are byte-identical: accept/reject with error code and offset (collapsed to one class for the three string-literal '
          'codes, as the property allows), Dump, deep copy + FindMember (view / pointer+length) indices + CreateMap + HasMember + '
-         'RemoveMember/Erase + Dump + ==, GetOnDemand error code or slice offset/length, ParseSchema result, UpdateLazy result. '
+         'RemoveMember/Erase + Dump + ==, GetOnDemand error code or slice offset/length, ParseSchema result, UpdateLazy result, Dump of '
+         'strings that borrow tails of the text placed against an unmapped page. '
          'Second harness (c15_clones, runtime-dispatch build only): the dispatcher, the SSE clone and the AVX2 clone of every '
          'multi-versioned kernel (SkipString, SkipContainer, skip_space_safe, parseStringInplace, Quote) are called directly at every '
          'quote / bracket / white-space position of valid, mutated, truncated and dense texts and must return the same result, cursor '
